@@ -353,7 +353,7 @@ func TestRepeatable(t *testing.T) {
 	defer vf.AfterCheck(t)
 	defer worker.Close()
 	corpus = mut.LoadCorpus(vf.Repo())
-	vf.Checks(1600, 60000)
+	vf.Checks(1600, 30000)
 	cliBudget := vf.Pick(6, 80) // per shard
 	rapid.Check(t, func(t *rapid.T) {
 		var c Case
